@@ -255,21 +255,106 @@ def _dft2(fn, mat_params, mats):
         raise Refuse(f'dft2: unsupported product expression {_u(e)[:60]}')
     fprod, oshape = tree(prod, top=True)
     return {'passed': passed, 'prod': fprod('u', 'v'), 'oshape': oshape, 'scale': scale, 'shape_default': shape_default,
-            'offset_default': defaults['offset']}
+            'offset_default': defaults['offset'], 'unitary_default': defaults['unitary']}
 
 
 # ------------------------------------------------------------------------------------------ idft2
-def _idft2(fn, dft2_info):
+class _Arr:
+    """symbolic array value inside idft2: ('in',) | ('conj', v) | ('div', v, int_expr) | ('dft2', v, args, unitary_expr)"""
+    def __init__(s, *t): s.t = t
+
+def _emit_arr(v, i, j):
+    t = v.t
+    if t[0] == 'in': return f'F {i} {j}'
+    if t[0] == 'conj': return f'conj ({_emit_arr(t[1], i, j)})'
+    if t[0] == 'div': return f'divInt ({_emit_arr(t[1], i, j)}) {t[2]}'
+    if t[0] == 'dft2':
+        inner = _emit_arr(t[1], 'a', 'b')
+        return f'dft2 (fun a b => {inner}) {t[2]["alpha"]} {t[2]["shape"]} {t[2]["shift"]} {t[3]} {i} {j}'
+    raise Refuse('idft2: internal: unknown array node')
+
+def _idft2(fn, dft2_fn, dft2_info):
+    """symbolic evaluation of idft2: which array is conjugated, what is passed to which dft2 parameter, what the result is divided by,
+    under which condition"""
     params = [a.arg for a in fn.args.args]
-    if params != ['F', 'alpha', 'shape', 'shift', 'unitary', 'out']: raise Refuse(f'idft2: parameters changed: {params}')
-    body = [_u(s) for s in _body(fn)]
-    want = ['F = np.asarray(F)', 'N = F.size', 'F = dft2(np.conj(F), alpha, shape, shift, unitary=unitary, out=out)', 'np.conj(F, out=F)',
-            'if unitary:\n    return F', 'return np.divide(F, N, out=F)']
-    if body != want:
-        diff = [b for b, w in zip(body, want) if b != w] or body[len(want):] or ['(statement missing)']
-        raise Refuse(f'idft2: plumbing changed: `{diff[0][:80]}`')
-    if dft2_info['offset_default'] != '(0, 0)': raise Refuse('idft2 relies on dft2 offset default (0, 0)')
-    return True
+    if params[0] != 'F' or set(params[1:]) != {'alpha', 'shape', 'shift', 'unitary', 'out'}: raise Refuse(f'idft2: parameters changed: {params}')
+    dparams = [a.arg for a in dft2_fn.args.args]
+    env = {'F': _Arr('in')}
+    ints = {}
+    def bexpr(e):
+        if isinstance(e, ast.Name) and e.id == 'unitary': return 'unitary'
+        if isinstance(e, ast.Constant) and isinstance(e.value, bool): return 'true' if e.value else 'false'
+        if isinstance(e, ast.UnaryOp) and isinstance(e.op, ast.Not): return f'(!{bexpr(e.operand)})'
+        raise Refuse(f'idft2: unsupported boolean {_u(e)[:40]}')
+    def iexpr(e):
+        if isinstance(e, ast.Name) and e.id in ints: return ints[e.id]
+        if isinstance(e, ast.Attribute) and e.attr == 'size' and isinstance(e.value, ast.Name) and env.get(e.value.id) is not None \
+                and env[e.value.id].t == ('in',): return '(s0 * s1)'
+        if isinstance(e, ast.Subscript) and _u(e.value).endswith('.shape') and isinstance(e.slice, ast.Constant) and e.slice.value in (0, 1) \
+                and env.get(_u(e.value)[:-6]) is not None and env[_u(e.value)[:-6]].t == ('in',): return f's{e.slice.value}'
+        if isinstance(e, ast.Constant) and isinstance(e.value, int) and not isinstance(e.value, bool): return f'({e.value} : Int)'
+        if isinstance(e, ast.BinOp) and isinstance(e.op, (ast.Mult, ast.Add, ast.Sub)):
+            return f'({iexpr(e.left)} {dict([(ast.Mult, "*"), (ast.Add, "+"), (ast.Sub, "-")])[type(e.op)]} {iexpr(e.right)})'
+        raise Refuse(f'idft2: divisor is not an integer expression of the input size: {_u(e)[:50]}')
+    def aexpr(e):
+        if isinstance(e, ast.Name):
+            if e.id not in env: raise Refuse(f'idft2: unknown array {e.id}')
+            return env[e.id]
+        if isinstance(e, ast.Call):
+            fn_ = _u(e.func)
+            kws = {k.arg: k.value for k in e.keywords}
+            if fn_ == 'np.asarray' and len(e.args) == 1 and not kws: return aexpr(e.args[0])
+            if fn_ == 'np.conj' and len(e.args) == 1 and set(kws) <= {'out'}: return _Arr('conj', aexpr(e.args[0]))
+            if fn_ == 'np.divide' and len(e.args) == 2 and set(kws) <= {'out'}: return _Arr('div', aexpr(e.args[0]), iexpr(e.args[1]))
+            if fn_ == 'dft2':
+                if len(e.args) > len(dparams): raise Refuse('idft2: too many arguments to dft2')
+                passed = dict(zip(dparams, e.args)); 
+                for k, v in kws.items():
+                    if k in passed or k not in dparams: raise Refuse(f'idft2: bad keyword {k} in the dft2 call')
+                    passed[k] = v
+                if 'f' not in passed: raise Refuse('idft2: dft2 called without an input array')
+                args = {}
+                for k in ('alpha', 'shape', 'shift'):
+                    if k not in passed or not isinstance(passed[k], ast.Name) or passed[k].id not in ('alpha', 'shape', 'shift'):
+                        raise Refuse(f'idft2: dft2 parameter {k} is not fed by one of idft2\'s own parameters')
+                    args[k] = passed[k].id
+                if 'offset' in passed: raise Refuse('idft2: dft2 is called with an explicit offset')
+                if 'out' in passed and _u(passed['out']) != 'out': raise Refuse('idft2: out= of the dft2 call changed')
+                un = bexpr(passed['unitary']) if 'unitary' in passed else ('true' if dft2_info['unitary_default'] == 'True' else 'false')
+                return _Arr('dft2', aexpr(passed['f']), args, un)
+        if isinstance(e, ast.BinOp) and isinstance(e.op, ast.Div): return _Arr('div', aexpr(e.left), iexpr(e.right))
+        raise Refuse(f'idft2: unsupported array expression {_u(e)[:60]}')
+    branches = []      # (condition or None, array value)
+    for st in _body(fn):
+        t = _u(st)
+        if isinstance(st, ast.Assign) and len(st.targets) == 1 and isinstance(st.targets[0], ast.Name):
+            nm = st.targets[0].id
+            try:
+                ints[nm] = iexpr(st.value); continue
+            except Refuse:
+                pass
+            env[nm] = aexpr(st.value)
+        elif isinstance(st, ast.Expr) and isinstance(st.value, ast.Call) and _u(st.value.func) == 'np.conj' and len(st.value.args) == 1:
+            kws = {k.arg: _u(k.value) for k in st.value.keywords}
+            tgt = _u(st.value.args[0])
+            if kws != {'out': tgt} or tgt not in env: raise Refuse(f'idft2: in-place conjugation changed: {t[:60]}')
+            env[tgt] = _Arr('conj', env[tgt])
+        elif isinstance(st, ast.If) and len(st.body) == 1 and isinstance(st.body[0], ast.Return) and not st.orelse:
+            branches.append((bexpr(st.test), aexpr(st.body[0].value)))
+        elif isinstance(st, ast.Return):
+            branches.append((None, aexpr(st.value))); break
+        else:
+            raise Refuse(f'idft2: unexpected statement `{t[:70]}`')
+    if not branches or branches[-1][0] is not None: raise Refuse('idft2: no final return')
+    body = _emit_arr(branches[-1][1], 'i', 'j')
+    for cond, v in reversed(branches[:-1]):
+        body = f'if {cond} then {_emit_arr(v, "i", "j")} else {body}'
+    off = dft2_info['offset_default']
+    try:
+        o = ast.literal_eval(off); o0, o1 = int(o[0]), int(o[1])
+    except Exception:
+        raise Refuse(f'dft2: offset default is not a pair of integers: {off}')
+    return body, (o0, o1)
 
 
 def generate(repo):
@@ -281,7 +366,7 @@ def generate(repo):
     cparams, cvecs = _coords(fns['_dft2_coords'])
     mparams, mats = _matrices(fns['_dft2_matrices'], cparams, cvecs)
     d = _dft2(fns['dft2'], mparams, mats)
-    _idft2(fns['idft2'], d)
+    idft2_body, idft2_off = _idft2(fns['idft2'], fns['dft2'], d)
     L = []
     for k, v in enumerate(cvecs):
         L.append(f'/-- `_dft2_coords` (line {fns["_dft2_coords"].lineno}): coordinate of index `i` of the {k + 1}-th returned vector, '
@@ -310,12 +395,14 @@ def generate(repo):
     L.append(f'/-- `dft2`: shape of the result, and the `shape=None` default -/\n'
              f'def fwDft2OutShape (m n shape0 shape1 : Int) : Int × Int := ({d["oshape"][0]}, {d["oshape"][1]})\n'
              f'def fwDft2ShapeDefault (m n : Int) : Int × Int := ({d["shape_default"][0]}, {d["shape_default"][1]})\n')
-    L.append(f'/-- `idft2` (line {fns["idft2"].lineno}): `conj(dft2(conj(F), alpha, shape, shift, unitary))`, divided by `N = F.size` unless unitary; '
-             f'`dft2` is called with its default offset -/\n'
-             f'def fwIdft2 {{K : Type}} (conj : K → K) (divInt : K → Int → K) (dft2 : (Int → Int → K) → Bool → Int → Int → K)\n'
-             f'    (F : Int → Int → K) (s0 s1 : Int) (unitary : Bool) (i j : Int) : K :=\n'
-             f'  let z := conj (dft2 (fun a b => conj (F a b)) unitary i j)\n  if unitary then z else divInt z (s0 * s1)\n'
-             f'def fwIdft2Offset : Int × Int := (0, 0)\n')
+    L.append(f'/-- `idft2` (line {fns["idft2"].lineno}), evaluated symbolically: which array is conjugated before and after, which of its parameters '
+             f'feed `dft2`\'s `alpha`, `shape`, `shift`, `unitary`, the divisor and the condition under which it is applied. `dft2` is called with '
+             f'its default offset `fwIdft2Offset`. -/\n'
+             f'def fwIdft2 {{K A S H : Type}} (conj : K → K) (divInt : K → Int → K)\n'
+             f'    (dft2 : (Int → Int → K) → A → S → H → Bool → Int → Int → K)\n'
+             f'    (F : Int → Int → K) (s0 s1 : Int) (alpha : A) (shape : S) (shift : H) (unitary : Bool) (i j : Int) : K :=\n'
+             f'  {idft2_body}\n'
+             f'def fwIdft2Offset : Int × Int := ({idft2_off[0]}, {idft2_off[1]})\n')
     notes = ['fourier.py: np.floor(b/2.0) translated as Int floor division b / 2 (exact for array sizes); np.broadcast_to(x, (2,)) as the '
              'pair (x0, x1) (a scalar x is x0 = x1, exercised by the harness); out=/lru_cache/asarray are not modelled']
     return '\n'.join(L), notes
